@@ -635,6 +635,7 @@ SPACES = {
     "x3": [("x", 3)],
     "x2z1": [("x", 2), ("z", 1)],
     "x1y1z1": [("x", 1), ("y", 1), ("z", 1)],
+    "t1p2s1": [("t", 1), ("p", 2), ("s", 1)],
 }
 
 
@@ -796,7 +797,15 @@ def vector_family(tier):
         for space, keys in [("x2", VEC2[0]), ("x1t1", VEC2[3])]:
             cs.append(vector_case("div", space, keys, batch=(2, 2), deg=2))
         cs.append(vector_case("div", "x1t1", VEC2[1], batch=(3,), deg=2))
+        # three (and more) separately passed derivative variables, also of unequal dimension: column offsets of jac
+        cs.append(vector_case("rot", "x1y1z1", VEC3[2], deg=2))
+        cs.append(vector_case("jac", "x1y1z1", VEC3[3], deg=2))
+        cs.append(vector_case("jac", "t1p2s1", ("full", "bil"), deg=2))
+        cs.append(vector_case("convective", "x1y1z1", VEC3[0], deg=2))
     if tier == "thorough":
+        for keys in [("full", "bil"), ("sq0", "mixed", "linL")]:
+            for op in ("jac", "convective"):
+                cs.append(vector_case(op, "t1p2s1", keys, deg=deg))
         for space in ("x3", "x2z1", "x1y1z1"):
             for keys in v3:
                 for op in ("jac", "div", "convective", "sym_grad"):
